@@ -445,6 +445,7 @@ class Scanner:
         # Skip '^'.
         self.pos += 1
         self.start = self.pos
+        self.skip_trivia()
 
         if self.peek() != '"':
             self.error("expected a string literal")
